@@ -1,11 +1,24 @@
 """C02 Euler family: units and runner"""
 from numeric import Unit, run_numeric, replay_file
 
+SEL = r'^eval_(q|exact)_'
+
+
 def units():
-    us = [Unit('euler_1d', 'euler.cpp', 'euler.spec.h', defines=['UNIT_euler_1d 1'], select=r'^eval_(q|exact)_')]
+    us = [Unit('euler_1d', 'euler.cpp', 'euler.spec.h', defines=['UNIT_euler_1d 1'], select=SEL),
+          Unit('euler_2d', 'euler.cpp', 'euler.spec.h', defines=['UNIT_euler_2d 1'], select=SEL),
+          Unit('euler_3d', 'euler.cpp', 'euler.spec.h', defines=['UNIT_euler_3d 1'], select=SEL),
+          Unit('euler_transient_1d', 'euler_transient.cpp', 'euler_transient.spec.h', defines=['UNIT_euler_transient_1d 1'], select=SEL),
+          Unit('euler_transient_2d', 'euler_transient_2d.cpp', 'euler_transient.spec.h', defines=['UNIT_euler_transient_2d 1'], select=SEL),
+          Unit('euler_transient_3d', 'euler_transient_3d.cpp', 'euler_transient.spec.h', defines=['UNIT_euler_transient_3d 1'], select=SEL),
+          # C++ class axi_euler registers itself as "axisymmetric_euler"
+          Unit('axi_euler', 'axi_euler.cpp', 'euler_axi.spec.h', defines=['UNIT_axi_euler 1'], select=SEL),
+          Unit('axi_euler_transient', 'axi_euler_transient.cpp', 'euler_axi.spec.h', defines=['UNIT_axi_euler_transient 1'], select=SEL)]
     return us
 
+
 def run(tier, seed):
-    return run_numeric('C02', units(), tier, seed, design_ref='4/C02')
+    return run_numeric('C02', units(), tier, seed, design_ref='4/C02', lemmas=['lemma_energy_forms', 'lemma_cyl_div'])
+
 
 replay = replay_file
